@@ -151,6 +151,15 @@ CLAIMED = {
             "exports must be rejected on the expected clause.",
             "C->S only (the export has no state to drive); symbols of function definitions nested below the module are not compared.",
             "DESIGN.md §5 C12"),
+    "C11": ("TLA+ HugrWire!Resolve with laws (idempotent, invisible on the wire, bound-preserving, exact replacement counts) over "
+            "(type term, registry) pairs: TLC + resolution against real ExtensionRegistry objects (S->C); HUGR-level Custom ops x registries",
+            "TLC enumerates ~190 type terms with opaque occurrences at every depth (sum rows, function types, type / sequence arguments, "
+            "arguments of opaque types) x all 16 registries and checks the laws; every pair (every third in quick) is resolved by the real "
+            "code and the positions that became definition-backed, serialization, bound, model export, a second resolution and "
+            "TypeTypeArg.resolve compared; loaded HUGRs with Custom ops are resolved against 8 registries (op replaced iff defined, "
+            "signature / args resolved, document and model unchanged except the description).",
+            "Declared bounds of opaque types agree with the registry's definitions.",
+            "DESIGN.md §5 C11"),
 }
 
 NOT_YET = "check not built yet in this round (planned: see DESIGN.md §5); nothing is claimed for it until its TLA+ spec and conformance legs exist"
